@@ -9,7 +9,7 @@ Open Scope Z_scope.
 
 Definition key := Z.
 Definition val := Z.
-Definition entry := (key * val)%type.
+Notation entry := (key * val)%type (only parsing).
 
 (** Result of an operation that contains a Rust [unwrap()], an index or an arithmetic
     operation that may panic: the panic is an explicit value carrying the name of the site. *)
@@ -61,10 +61,9 @@ Definition set_val_opt (k : key) (w : option val) (l : list entry) : list entry 
 Fixpoint split_last (l : list entry) : option (list entry * entry) :=
   match l with
   | [] => None
-  | [x] => Some ([], x)
   | x :: t => match split_last t with
               | Some (r, y) => Some (x :: r, y)
-              | None => None
+              | None => Some ([], x)
               end
   end.
 
